@@ -864,5 +864,15 @@ theorem htmlTokenize_restart (a1 a' : Bytes) (hv : V a1) (hv' : V a') (hsafe : s
         rw [mg.1, ← htleq]
         rfl
 
+/-! Non-vacuity of `synSafeEnd` (kernel evaluation of the model): safe — a cut inside a start tag (`<di`), inside plain
+text (`<p>ab`), after a held text (`<p>a<`); not safe — inside a raw-text element (`<textarea><p>`), a comment (`<!-`),
+a CDATA section (`<![C`), a processing instruction (`<?x`). -/
+example : synSafeEnd [60, 100, 105] = true ∧ synSafeEnd [60, 112, 62, 97, 98] = true ∧
+    synSafeEnd [60, 112, 62, 97, 60] = true := by decide +kernel
+
+example : synSafeEnd [60, 116, 101, 120, 116, 97, 114, 101, 97, 62, 60, 112, 62] = false ∧
+    synSafeEnd [60, 33, 45] = false ∧ synSafeEnd [60, 33, 91, 67] = false ∧ synSafeEnd [60, 63, 120] = false := by
+  decide +kernel
+
 end Rio.Filter
 
